@@ -64,6 +64,18 @@ type Engine struct {
 	uninterp    map[string]bool
 	MaxInline   int
 	collect     *loopFrame // store targets seen during a dry run
+	readRec     map[string]bool // heap reads recorder (recursive spec function analysis)
+	recInfo     map[*ssa.Function]*recInfo
+	recBuilding map[*ssa.Function]*recInfo
+	epochTime   map[int]string
+}
+
+// recInfo describes the SMT definition of a recursive spec function.
+type recInfo struct {
+	name   string
+	heaps  []string // heap names it reads, in argument order
+	sorts  []string
+	result string
 }
 
 // loopFrame records which objects a loop body writes, per heap.
@@ -72,11 +84,31 @@ type loopFrame struct {
 	wild  map[string]bool
 }
 
-func (e *Engine) recStore(heap string, base T) {
-	if e.collect == nil {
+func (e *Engine) recStore(st *State, heap string, base T) {
+	if e.collect != nil {
+		e.collect.bases[heap] = append(e.collect.bases[heap], base)
+	}
+	if e.dry > 0 || e.noOblig > 0 {
 		return
 	}
-	e.collect.bases[heap] = append(e.collect.bases[heap], base)
+	// conditional loop frames: a write inside a loop whose frame was assumed for old objects
+	// must target an object allocated by this function (or one of the loop-invariant bases).
+	for f := e.cur; f != nil; f = f.caller {
+		for head, lf := range f.condFrames {
+			bases, ok := lf[heap]
+			if !ok || f.curBlock == nil || !e.loops(f.fn).body[head][f.curBlock] {
+				continue
+			}
+			if strings.HasPrefix(base.S, "new_") {
+				continue
+			}
+			goal := fmt.Sprintf("(> (newid %s) 0)", base.S)
+			for _, b := range bases {
+				goal = fmt.Sprintf("(or %s (= %s %s))", goal, base.S, b)
+			}
+			e.oblige(st, "loop-frame", fmt.Sprintf("loop%d:%s", e.loops(f.fn).ordinal[head], heap), T{goal, sBool}, token.NoPos)
+		}
+	}
 }
 
 func (e *Engine) recWild(heap string) {
@@ -100,6 +132,7 @@ func NewEngine(p *Program) *Engine {
 		fldKinds: map[string]int{}, instCount: map[string]int{}, Assumptions: map[string]bool{},
 		globalConst: map[*ssa.Global]T{}, immutable: map[*ssa.Global]int{},
 		allocIndex: map[*ssa.Function]map[string]*ssa.Alloc{}, loopCache: map[*ssa.Function]*loopInfo{}, uninterp: map[string]bool{},
+		recInfo: map[*ssa.Function]*recInfo{}, recBuilding: map[*ssa.Function]*recInfo{},
 		MaxInline: 14,
 	}
 	e.lines = append(e.lines, smtPrelude)
@@ -261,10 +294,24 @@ type State struct {
 	epoch  int
 	defers map[int][]*deferEntry
 	nonnil map[string]bool // terms already shown (or assumed) non-nil on every path to here
+	// allocation clock: every object allocated by the function gets newid = the clock value at
+	// its allocation (objects that existed at entry have newid 0); tbase + toff is the next value.
+	tbase string
+	toff  int
+}
+
+func (s *State) time() T {
+	if s.tbase == "" {
+		return tInt(int64(s.toff))
+	}
+	if s.toff == 0 {
+		return T{s.tbase, sInt}
+	}
+	return T{fmt.Sprintf("(+ %s %d)", s.tbase, s.toff), sInt}
 }
 
 func (s *State) clone() *State {
-	n := &State{pc: s.pc, epoch: s.epoch, cells: make(map[cellKey]Val, len(s.cells)), heaps: make(map[string]T, len(s.heaps)), defers: map[int][]*deferEntry{}}
+	n := &State{pc: s.pc, epoch: s.epoch, tbase: s.tbase, toff: s.toff, cells: make(map[cellKey]Val, len(s.cells)), heaps: make(map[string]T, len(s.heaps)), defers: map[int][]*deferEntry{}}
 	for k, v := range s.cells {
 		n.cells[k] = v
 	}
@@ -285,10 +332,14 @@ func (s *State) clone() *State {
 
 func (s *State) assign(o *State) {
 	s.pc, s.cells, s.heaps, s.epoch, s.defers, s.nonnil = o.pc, o.cells, o.heaps, o.epoch, o.defers, o.nonnil
+	s.tbase, s.toff = o.tbase, o.toff
 }
 
 // heap returns the current term of heap `name` (declaring its epoch default on demand).
 func (e *Engine) heap(st *State, name, sort string) T {
+	if e.readRec != nil {
+		e.readRec[name] = true
+	}
 	if t, ok := st.heaps[name]; ok {
 		return t
 	}
@@ -302,6 +353,10 @@ func (e *Engine) heap(st *State, name, sort string) T {
 		e.emitDecl(fmt.Sprintf("(declare-const %s %s)", c, sort))
 		if st.epoch == 0 {
 			e.initialHeapAxioms(c, sort)
+		} else if tm, ok := e.epochTime[st.epoch]; ok && e.dry == 0 {
+			tmp := &State{pc: tTrue, tbase: tm}
+			e.heapOlderThanNow(tmp, T{c, sort})
+			e.heapWf(tmp, T{c, sort})
 		}
 	}
 	return T{c, sort}
@@ -348,6 +403,61 @@ func (e *Engine) havocAll(st *State) {
 	e.epochSeq++
 	st.epoch = e.epochSeq
 	st.heaps = map[string]T{}
+	e.bumpTime(st)
+	if e.epochTime == nil {
+		e.epochTime = map[int]string{}
+	}
+	e.epochTime[st.epoch] = st.time().S
+}
+
+// bumpTime: an unknown number of allocations may have happened (call, loop iterations).
+func (e *Engine) bumpTime(st *State) {
+	old := st.time()
+	e.nfresh++
+	n := fmt.Sprintf("t!%d", e.nfresh)
+	e.emitDecl(fmt.Sprintf("(declare-const %s Int)", n))
+	e.emit(fmt.Sprintf("(assert (>= %s %s))", n, old.S))
+	st.tbase, st.toff = n, 0
+}
+
+// olderThanNow: every reference inside value v (of Go type t) denotes an object that exists now.
+func (e *Engine) olderThanNow(st *State, v T) T {
+	now := st.time().S
+	switch v.Sort {
+	case sRef:
+		return T{fmt.Sprintf("(< (newid %s) %s)", v.S, now), sBool}
+	case sSlice:
+		return T{fmt.Sprintf("(< (newid (sbase %s)) %s)", v.S, now), sBool}
+	case sIface:
+		return T{fmt.Sprintf("(=> ((_ is if_ref) %s) (< (newid (iref %s)) %s))", v.S, v.S, now), sBool}
+	}
+	return tTrue
+}
+
+// heapOlderThanNow: the same for the contents of a havocked heap.
+func (e *Engine) heapOlderThanNow(st *State, h T) {
+	now := st.time().S
+	if !strings.HasPrefix(h.Sort, "(Array Ref ") {
+		e.assume(st, e.olderThanNow(st, h))
+		return
+	}
+	_, v := arrayKV(h.Sort)
+	x := "(select " + h.S + " x)"
+	xi := "(select (select " + h.S + " x) i)"
+	switch v {
+	case sRef:
+		e.emit(fmt.Sprintf("(assert (forall ((x Ref)) (! (< (newid %s) %s) :pattern (%s))))", x, now, x))
+	case sSlice:
+		e.emit(fmt.Sprintf("(assert (forall ((x Ref)) (! (< (newid (sbase %s)) %s) :pattern (%s))))", x, now, x))
+	case sIface:
+		e.emit(fmt.Sprintf("(assert (forall ((x Ref)) (! (=> ((_ is if_ref) %s) (< (newid (iref %s)) %s)) :pattern (%s))))", x, x, now, x))
+	case "(Array Int Ref)":
+		e.emit(fmt.Sprintf("(assert (forall ((x Ref) (i Int)) (! (< (newid %s) %s) :pattern (%s))))", xi, now, xi))
+	case "(Array Int Slice)":
+		e.emit(fmt.Sprintf("(assert (forall ((x Ref) (i Int)) (! (< (newid (sbase %s)) %s) :pattern (%s))))", xi, now, xi))
+	case "(Array Int Iface)":
+		e.emit(fmt.Sprintf("(assert (forall ((x Ref) (i Int)) (! (=> ((_ is if_ref) %s) (< (newid (iref %s)) %s)) :pattern (%s))))", xi, xi, now, xi))
+	}
 }
 
 // ---------------------------------------------------------------------------------------------
@@ -368,13 +478,15 @@ type Frame struct {
 	entry    *State // state at entry (top frame: for frame conditions and old())
 	params   []Val
 	loopHead map[*ssa.BasicBlock]*State
+	condFrames map[*ssa.BasicBlock]map[string][]string // loop head -> heap -> invariant bases (conditional frames)
+	curBlock *ssa.BasicBlock
 	blockPC  map[*ssa.BasicBlock]T
 	deferN   int
 }
 
 func (e *Engine) newFrame(fn *ssa.Function, caller *Frame) *Frame {
 	e.frameSeq++
-	f := &Frame{id: e.frameSeq, fn: fn, vals: map[ssa.Value]Val{}, caller: caller, loopHead: map[*ssa.BasicBlock]*State{}, blockPC: map[*ssa.BasicBlock]T{}}
+	f := &Frame{id: e.frameSeq, fn: fn, vals: map[ssa.Value]Val{}, caller: caller, loopHead: map[*ssa.BasicBlock]*State{}, blockPC: map[*ssa.BasicBlock]T{}, condFrames: map[*ssa.BasicBlock]map[string][]string{}}
 	if caller != nil {
 		f.depth = caller.depth + 1
 		f.spec = caller.spec
@@ -564,7 +676,9 @@ func (e *Engine) newObject(st *State, hint string) T {
 	e.nfresh++
 	n := fmt.Sprintf("new_%s!%d", hint, e.nfresh)
 	e.emitDecl(fmt.Sprintf("(declare-const %s Ref)", n))
-	e.emitDecl(fmt.Sprintf("(assert (and (= (newid %s) %d) (= (rkind %s) 0)))", n, e.nfresh, n))
+	e.emitDecl(fmt.Sprintf("(assert (= (rkind %s) 0))", n))
+	e.emit(fmt.Sprintf("(assert (= (newid %s) %s))", n, st.time().S))
+	st.toff++
 	return T{n, sRef}
 }
 
@@ -633,7 +747,7 @@ func (e *Engine) storeStruct(st *State, r T, t types.Type, v T) {
 		}
 		hn := e.fieldHeapName(skey, s, i)
 		h := e.heap(st, hn, arraySort(sRef, e.sortOf(ft)))
-		e.recStore(hn, r)
+		e.recStore(st, hn, r)
 		e.setHeap(st, hn, tStore(h, r, fv))
 	}
 }
@@ -656,7 +770,7 @@ func (e *Engine) storePointee(st *State, r T, t types.Type, v T) {
 		return
 	}
 	hn, hs := e.pointeeHeap(t)
-	e.recStore(hn, r)
+	e.recStore(st, hn, r)
 	e.setHeap(st, hn, tStore(e.heap(st, hn, hs), r, v))
 }
 
@@ -680,7 +794,7 @@ func (e *Engine) storeElem(st *State, base, idx T, et types.Type, v T) {
 	}
 	hn, hs := e.elemHeap(et)
 	h := e.heap(st, hn, hs)
-	e.recStore(hn, base)
+	e.recStore(st, hn, base)
 	e.setHeap(st, hn, tStore(h, base, tStore(tSel(h, base), idx, v)))
 }
 
@@ -732,7 +846,7 @@ func (e *Engine) store(st *State, p Val, t types.Type, v Val) {
 		st.cells[q.key] = e.name(e.updatePath(root, q.path, q.ptypes, e.toTerm(v, t)), "c_"+q.key.alloc.Comment)
 	case *FieldPtr:
 		h := e.heap(st, q.heap, arraySort(sRef, e.sortOf(q.ftype)))
-		e.recStore(q.heap, q.base)
+		e.recStore(st, q.heap, q.base)
 		e.setHeap(st, q.heap, tStore(h, q.base, e.toTerm(v, q.ftype)))
 	case *ElemPtr:
 		e.storeElem(st, q.base, q.idx, q.etype, e.toTerm(v, q.etype))
@@ -999,6 +1113,7 @@ func (e *Engine) freshOfType(st *State, t types.Type, hint string) Val {
 	}
 	v := e.fresh(e.sortOf(t), hint)
 	e.assumeTypeInv(st, v, t)
+	e.assume(st, e.olderThanNow(st, v))
 	return v
 }
 
